@@ -3,6 +3,21 @@
 # the evidence next to what the engine measured.
 
 PROPS = {
+    "C12": {
+        "groups": [
+            {"pkg": "server", "tags": "verif,test", "harness": "^verifH_C12_", "unwind": 4},
+            {"pkg": "server", "tags": "verif,test", "harness": "^verifH_C01_signed"},
+        ],
+        "bounds": {"handlers": "7 HTTP handlers x {GET, POST, PUT} x any decodable body (strings <= 3 bytes, slices <= 2 elements) x arbitrary query values; TCP request 0..8 bytes; UDP as in C01", "peers": "each outbound http.Post fails or succeeds arbitrarily"},
+        "outside": ["GeoStatsHandler's parsing of third-party payloads", "ArchiveHandler (see C14)", "real sockets and scheduler"],
+    },
+    "C03": {
+        "groups": [
+            {"pkg": "server", "tags": "verif,test", "harness": "^verifH_C03_", "unwind": 4},
+        ],
+        "bounds": {"devices": 1, "archived weeks": 1, "slots": "every slot k (symbolic) of the 2016"},
+        "outside": ["JSON rendering of the response", "more than one device / archived week"],
+    },
     "C05": {
         "groups": [
             {"pkg": "server", "tags": "verif,test", "harness": "^verifH_C05_file_present", "unwind": 5},
